@@ -4,7 +4,9 @@ import QV.Base.Quirks
 import QV.Base.BExp
 import QV.Model.Types
 import QV.Model.Circuit
+import QV.Model.Tools
 import QV.Gen.Tables
 import QV.Drive.BExpJson
 import QV.Drive.CircJson
 import QV.Props.C09
+import QV.Props.C17
